@@ -132,7 +132,7 @@ Theorem C08_ok_reserved_names :
      bytes_eqb vb ns_xmlns_uri = false /\                           (* nothing bound to the xmlns URI *)
      bytes_eqb lb ns_xml_prefix = bytes_eqb vb ns_xml_uri) /\       (* p = xml <-> v = the xml URI *)
   (* xmlns='v' *)
-  (bytes_eqb pb xmlns_str = false -> bytes_eqb lb xmlns_str = true ->
+  (bytes_eqb pb xmlns_str = false -> slice_len prefix = 0 -> bytes_eqb lb xmlns_str = true ->
      bytes_eqb vb ns_xml_uri = false /\ bytes_eqb vb ns_xmlns_uri = false).
 Proof. exact ok_reserved_names. Qed.
 Print Assumptions C08_ok_reserved_names.
